@@ -521,7 +521,7 @@ def _wide_inputs(rng, n, rules, coalition=False):
             if style == "large":
                 return F(rng.randint(1, 5000))
             if style == "grain":
-                return F(rng.randint(1, 4000), rng.choice([1, 3, 7, 11, 13]))
+                return F(rng.randint(1, 4000), rng.choice([1, 3, 7, 11, 13, 10007, 999983]))       # incl. large prime denominators
             return F(rng.choice([100, 250, 250, 1000]))       # equal piles: ties at election and at elimination
         if coalition:
             S = rng.sample(cands, rng.randint(1, nc - 1))
